@@ -103,6 +103,8 @@ def _cmp_facts(body, bb):
                 lb = {("Ge", True): k, ("Gt", True): k + 1, ("Lt", False): k, ("Le", False): k + 1, ("Eq", True): k}.get((op, truth))
                 if lb is None and op == "Ne" and truth and k == 0:
                     lb = 1
+                if lb is None and op == "Eq" and truth is False and k == 0 and op_place(a) is not None and _is_unsigned(body, op_place(a)):
+                    lb = 1  # `if index == 0 { return Err(..) }` on an unsigned value
                 if lb is not None:
                     out.append((root, lb, o))
             elif ka is not None and "int" in ka and kb is None:
@@ -316,7 +318,7 @@ PANIC_TABLE = [
     (r"^aa::aa_framework::AAFramework::<T>::new_attack_by_ids$", "Overflow:Sub", 3, "attacks.len() - 1 after a push (2); `n - 1` in the error text needs n = 0, which the ICCMA reader excludes by its own range test before calling (observation O3)"),
     (r"^utils::label::LabelSet::<T>::len$", "Overflow:Sub", 1, "removed counter <= labels.len() (C12 removed-counter)"),
     (r"^utils::label::LabelSet::<T>::new_label$", "Overflow:Sub", 1, "labels.len() - 1 right after a push"),
-    (r"Iccma23Reader as io::specs::InstanceReader<usize>>::read$", "Result::unwrap", 1, "new_attack_by_ids cannot fail: both ids passed the reader's range test 1<=k<=n (rule iccma-guards)"),
+    (r"Iccma23Reader as io::specs::InstanceReader<usize>>::read$|^io::iccma23_reader::Iccma23Reader::[a-z_0-9]+$", "Result::unwrap", 1, "new_attack_by_ids cannot fail: both ids passed the reader's range test 1<=k<=n (rule iccma-guards)"),
 ]
 
 
@@ -419,8 +421,66 @@ def _option_var(b, arg, limit=8):
     return None
 
 
+def _field_option_filled(prog, b, s):
+    """`if self.f.is_none() { self.f = Some(..); } self.f.as_mut().unwrap()`: the Option is a field place, filled on the is_none edge"""
+    from ..core import switch_sites
+
+    def place_of(op):
+        for o in origins(b, op, transparent=("core::option::Option::as_ref", "core::option::Option::as_mut")):
+            if o.kind in ("param", "local") or True:
+                pass
+        # the place behind `&mut (*_1).f` handed to as_mut / is_none
+        q = op_place(op)
+        seen = 0
+        while q is not None and not q["p"] and seen < 6:
+            seen += 1
+            ds = b.defs.get(q["l"], [])
+            if len(ds) != 1:
+                return None
+            nd = ds[0].node
+            if ds[0].si is None:
+                if callee_decl(callee_of(ds[0])) in ("core::option::Option::as_ref", "core::option::Option::as_mut"):
+                    q = op_place(nd["args"][0])
+                    continue
+                return None
+            if nd["k"] == "assign" and nd["rv"]["k"] == "ref":
+                return nd["rv"]["place"]
+            if nd["k"] == "assign" and nd["rv"]["k"] == "use":
+                q = op_place(nd["rv"]["ops"][0])
+                continue
+            return None
+        return None
+
+    def same(p1, p2):
+        return p1 is not None and p2 is not None and p1["l"] == p2["l"] and [str(e.get("f")) if isinstance(e, dict) else str(e) for e in p1["p"]] == [str(e.get("f")) if isinstance(e, dict) else str(e) for e in p2["p"]]
+
+    P = place_of(s.node["args"][0])
+    if P is None or not any(isinstance(e, dict) and "f" in e for e in P["p"]):
+        return None
+    some_blocks, none_blocks = set(), set()
+    for w in b.sites():
+        nd = w.node
+        if w.si is not None and nd["k"] == "assign" and same(nd["dst"], P):
+            vs = {nd["rv"]["agg"].get("variant")} if nd["rv"]["k"] == "aggregate" else {oo.data.get("variant") if oo.kind == "agg" else "?" for oo in origins(b, nd["rv"]["ops"][0], transparent=())} if nd["rv"]["k"] == "use" else {"?"}
+            (some_blocks if vs == {"Some"} else none_blocks).add(w.bb)
+    if not some_blocks or any(b.reaches(x, s.bb) for x in none_blocks):
+        return None
+    for sw in switch_sites(b):
+        if sw.bb not in b.dom.get(s.bb, ()):
+            continue
+        for o in origins(b, sw.node["discr"], transparent=()):
+            if o.kind == "call" and callee_decl(o.data) == "core::option::Option::is_none" and same(place_of(o.site.node["args"][0]), P):
+                true_t = sw.node["otherwise"]
+                if true_t in some_blocks or not b.reaches(true_t, s.bb, avoid=some_blocks):
+                    return "is_none(field) => the field is set to Some(..) on every path before the unwrap"
+    return None
+
+
 def _option_known_some(prog, b, s):
     """Option::unwrap whose operand is a variable proved Some by a dominating test, or built as Some"""
+    w0 = _field_option_filled(prog, b, s)
+    if w0:
+        return w0
     arg = s.node["args"][0]
     os_ = origins(b, arg, transparent=("core::option::Option::as_ref", "core::option::Option::as_mut"))
     if os_ and all(o.kind == "agg" and o.data.get("variant") == "Some" for o in os_):
@@ -547,7 +607,25 @@ def _store_index_source_ok(prog, b, op, site, depth=0):
     return True
 
 
+def _wrapper_index_impl(prog, b, s):
+    """`impl Index<usize> for Slots { fn index(&self, id) -> .. { &self.0[id] } }` of a crate-private wrapper: the panic is the one of
+    the wrapper's own `[..]`, and every use of it is an Index::index site that the census judges where it is written"""
+    if b.kind == "closure" or not b.impl or not re.search(r"ops::index::Index(Mut)?$", b.impl.get("trait") or ""):
+        return None
+    a = prog.adt(b.impl.get("self_adt") or "")
+    if not a or str(a.get("vis") or "pub") == "pub" or len(s.node.get("args") or []) < 2:
+        return None
+    oi = origins(b, s.node["args"][1], transparent=())
+    oc = origins(b, s.node["args"][0], transparent=("core::ops::deref::Deref::deref",))
+    if oi and all(o.kind == "param" and o.data == 2 and not o.fields for o in oi) and oc and all(o.kind == "param" and o.data == 1 for o in oc):
+        return "the Index impl of the private wrapper %s hands its index to the wrapped vector: the panic is that of each `[..]` on the wrapper, which is an Index::index site judged where it is written" % a["path"].rsplit("::", 1)[-1]
+    return None
+
+
 def _store_internal_index(prog, b, s):
+    w = _wrapper_index_impl(prog, b, s)
+    if w:
+        return w
     fn = prog.enclosing_fn(b)
     if not (fn.impl and fn.impl.get("self_adt") in STORE_TYPES):
         return None
@@ -1205,6 +1283,12 @@ def rule_iccma_guards(ctx):
     for imp, b in prog.impl_methods(READER, "read"):
         if any(callee_matches(callee_of(s), r"^aa::aa_framework::AAFramework::new_attack_by_ids$") for y in prog.with_closures(b) for s in y.calls()):
             rd = b
+    if rd is None:
+        for imp, b in prog.impl_methods(READER, "read"):
+            hs = [x for x in prog.reachable_from([b], virtual_dispatch=False).values() if x is not b and x.path.startswith("io::") and any(callee_matches(callee_of(s), r"^aa::aa_framework::AAFramework::new_attack_by_ids$") for y in prog.with_closures(x) for s in y.calls())]
+            if hs:
+                r.ok("iccma-guards", "NOT decided: the attacks are inserted by %s, a helper of the reader that `read` hands each content line to (the guards are judged in a `read` that inserts the attacks itself)" % hs[0].path.rsplit("::", 1)[-1], hs[0].loc())
+                return
     if not r.require_anchor(rd, "InstanceReader::read inserting attacks by id"):
         return
     ins = [s for y in prog.with_closures(rd) for s in y.calls() if callee_matches(callee_of(s), r"^aa::aa_framework::AAFramework::new_attack_by_ids$")]
@@ -1305,6 +1389,12 @@ def rule_declaration_order(ctx):
     for imp, b in prog.impl_methods(READER, "read"):
         if any(callee_matches(callee_of(s), r"^aa::aa_framework::AAFramework::new_attack$") for s in b.calls()):
             rd = b
+    if rd is None:
+        for imp, b in prog.impl_methods(READER, "read"):
+            hs = [x for x in prog.reachable_from([b], virtual_dispatch=False).values() if x is not b and x.path.startswith("io::") and any(callee_matches(callee_of(s), r"^aa::aa_framework::AAFramework::new_attack$") for s in x.calls())]
+            if hs:
+                r.ok("declaration-order", "NOT decided: the attacks are inserted by %s, a helper of the reader (the label vector and the operands are followed in a `read` that builds the framework itself)" % hs[0].path.rsplit("::", 1)[-1], hs[0].loc())
+                return
     if not r.require_anchor(rd, "InstanceReader::read inserting attacks by label"):
         return
     # the label vector reaches ArgumentSet::new_with_labels unchanged: directly, or through a local helper / closure that
@@ -1441,6 +1531,16 @@ def rule_line_errors_reported(ctx):
                             d = callee_decl(c.info[0]) if c.info[0] else ""
                             if d in ("anyhow::Context::with_context", "anyhow::Context::context", "core::ops::try_trait::Try::branch", "core::result::Result::map_err", "core::result::Result::unwrap", "core::result::Result::expect"):
                                 ok = True
+                            else:
+                                # handed to a function of the reader that checks it (`self.read_line(.., line)` doing `line?`)
+                                t = prog.body_for_callee(c.info[0], b) if c.info[0] else None
+                                if t is not None and t.kind != "closure":
+                                    for k in range(1, t.n_args + 1):
+                                        if "core::result::Result<alloc::string::String" in t.local_ty(k) and k - 1 < len(c.site.node["args"]):
+                                            for c2 in consumers(t, k, follow_refs=True):
+                                                d2 = callee_decl(c2.info[0]) if c2.kind == "call" and c2.info[0] else ""
+                                                if c2.kind == "match" or d2 in ("anyhow::Context::with_context", "anyhow::Context::context", "core::ops::try_trait::Try::branch", "core::result::Result::map_err", "core::result::Result::unwrap", "core::result::Result::expect"):
+                                                    ok = True
                         elif c.kind == "match":
                             ok = True
             r.check(ok, anchor, "line-result-not-checked", "the io::Result of every line is propagated (`?` / with_context) or matched", "the io::Result<String> yielded for a line is not propagated or matched: a read error is not reported", s.loc())
